@@ -35,30 +35,45 @@ def _close(obs, want, scale=0.0):
 def _abs(s, v):
     import numpy as np
     from openmdao.utils import cs_safe
-    x = np.array(s['x'], dtype=float)
+    scale = 10.0 ** s['e']
+    x = np.array(s['x'], dtype=float) * scale
     dx = np.array(s['dx'], dtype=float)
     forms = []
     z = x + 1j * H * dx
-    if not dx.any():
+    real = not dx.any()
+    if real:
         forms.append(('real-array', x.copy()))
+        if s['e'] == 0:
+            forms.append(('int-array', np.array(s['x'], dtype=int)))
     forms.append(('array', z))
     forms.append(('array2d', z.reshape(1, -1)))
+    forms.append(('strided', np.repeat(z, 2)[::2]))
     if s['n'] == 1:
         forms.append(('scalar', complex(z[0])))
         forms.append(('numpy-scalar', z[0]))
-        if not dx.any():
+        forms.append(('0-d array', np.array(z[0])))
+        if real:
             forms.append(('float', float(x[0])))
+            forms.append(('numpy-float', x[0]))
+            if s['e'] == 0:
+                forms.append(('int', int(s['x'][0])))
     bad = []
+    want_re = np.abs(x)
     for name, arg in forms:
-        r = np.atleast_1d(np.asarray(cs_safe.abs(arg))).ravel()
-        want_re = np.abs(x)
+        res = cs_safe.abs(arg)
+        if real and name in ('real-array', 'int-array', 'float', 'numpy-float', 'int') and np.iscomplexobj(res):
+            bad.append((name, 'dtype', 'complex result for a real argument'))
+        r = np.atleast_1d(np.asarray(res)).ravel()
+        if len(r) != s['n']:
+            bad.append((name, 'shape', len(r), s['n']))
+            continue
         for k in range(s['n']):
-            if r[k].real != want_re[k] or r[k].real != v['re'][k]:
+            if not (r[k].real == want_re[k] and r[k].real == v['re'][k] * scale):
                 bad.append((name, k, 're', float(r[k].real), float(want_re[k])))
-            allowed = [float(fr(d)) for d in v['d'][k]]
+            want = float(fr(v['d'][k]))
             got = float(np.imag(r[k])) / H
-            if not any(_close(got, a) for a in allowed):
-                bad.append((name, k, 'im/h', got, allowed))
+            if not _close(got, want):
+                bad.append((name, k, 'im/h', got, want))
     return bad
 
 
@@ -68,20 +83,32 @@ def _norm(s, v):
     x = np.array(s['x'], dtype=float)
     dx = np.array(s['dx'], dtype=float)
     axis = None if s['axis'] == 'none' else int(s['axis'])
-    forms = [('matrix', x + 1j * H * dx, x, axis)]
+    z = x + 1j * H * dx
+    forms = [('matrix', z, x, axis)]
+    if axis is not None:
+        forms.append(('matrix-negative-axis', z, x, axis - 2))
+    if not dx.any():
+        forms.append(('real-matrix', x.copy(), x, axis))
     if x.shape[0] == 1 and axis is None:
-        forms.append(('vector', (x + 1j * H * dx)[0], x[0], None))
+        forms.append(('vector', z[0], x[0], None))
+        if not dx.any():
+            forms.append(('real-vector', x[0].copy(), x[0], None))
     if x.shape[0] == 1 and axis == 1:
-        forms.append(('vector-axis0', (x + 1j * H * dx)[0], x[0], 0))
+        forms.append(('vector-axis0', z[0], x[0], 0))
+    if x.shape[1] == 1 and axis == 0:
+        forms.append(('column-as-vector', z[:, 0], x[:, 0], 0))
     bad = []
     for name, arg, re_arg, ax in forms:
-        r = np.atleast_1d(np.asarray(cs_safe.norm(arg, axis=ax))).ravel()
+        res = cs_safe.norm(arg, axis=ax)
+        if name.startswith('real') and np.iscomplexobj(res):
+            bad.append((name, 'dtype', 'complex result for a real argument'))
+        r = np.atleast_1d(np.asarray(res)).ravel()
         want_re = np.atleast_1d(np.linalg.norm(re_arg, axis=ax)).ravel()
         if len(r) != len(v['d']):
             bad.append((name, 'shape', len(r), len(v['d'])))
             continue
         for k in range(len(r)):
-            if r[k].real != want_re[k] or r[k].real != v['re'][k]:
+            if not (r[k].real == want_re[k] and r[k].real == v['re'][k]):
                 bad.append((name, k, 're', float(r[k].real), float(want_re[k]), v['re'][k]))
             got = float(np.imag(r[k])) / H
             if not _close(got, float(fr(v['d'][k]))):
@@ -94,16 +121,24 @@ def _arctan2(s, v):
     from openmdao.utils import cs_safe
     y, x, dy, dx = float(s['y']), float(s['x']), float(s['dy']), float(s['dx'])
     want_re = float(np.arctan2(y, x))
+    bad = []
+    # real arguments: NumPy's value and a real result
+    for name, a, b in (('real', y, x), ('real-array', np.array([y, y]), np.array([x, x])), ('real-array-scalar', np.array([y]), x)):
+        rr = cs_safe.arctan2(a, b)
+        if np.iscomplexobj(rr) or any(float(q) != want_re for q in np.atleast_1d(rr)):
+            bad.append((name, 're', [str(q) for q in np.atleast_1d(rr)], want_re))
+    if dy == 0 and dx == 0:
+        return bad
     want_d = float(fr(v['d']))
     yc, xc = complex(y, H * dy), complex(x, H * dx)
     forms = [('scalar', yc, xc), ('array', np.array([yc, yc]), np.array([xc, xc])),
-             ('array-scalar', np.array([yc]), xc)]
+             ('array-scalar', np.array([yc]), xc), ('array2d', np.array([[yc], [yc]]), np.array([[xc], [xc]]))]
     if dx == 0:
         forms.append(('x-real', yc, x))
         forms.append(('x-real-array', np.array([yc]), np.array([x])))
     if dy == 0:
         forms.append(('y-real', y, xc))
-    bad = []
+        forms.append(('y-real-array', np.array([y]), np.array([xc])))
     for name, a, b in forms:
         r = np.atleast_1d(np.asarray(cs_safe.arctan2(a, b))).ravel()
         for k in range(len(r)):
@@ -112,11 +147,10 @@ def _arctan2(s, v):
             got = float(np.imag(r[k])) / H
             if not _close(got, want_d):
                 bad.append((name, 'im/h', got, want_d))
-    # real arguments: NumPy's value and a real result
-    rr = cs_safe.arctan2(y, x)
-    if np.iscomplexobj(rr) or float(rr) != want_re:
-        bad.append(('real', 're', complex(rr), want_re))
     return bad
+
+
+NO_COMPLEX = ('smooth_round',)       # jnp.floor rejects complex arguments: differentiated with jax.grad only
 
 
 def _smooth(s, v):
@@ -125,31 +159,74 @@ def _smooth(s, v):
     import jax.numpy as jnp
     import openmdao.jax_funcs as jf
 
-    def call(t, grad=False):
-        fn = getattr(jf, t['fn'])
+    def pos(t, repl=None):
+        """positional arguments actually passed; repl = {index: value} replaces arguments"""
         a = [float(fr(q)) for q in t['args']]
         if t['fn'] in ('ks_max', 'ks_min'):
-            if grad:
-                return None
-            return float(fn(jnp.array(a[1:]), a[0]))
-        if grad:
-            if t['fn'] not in _GRADS:
-                _GRADS[t['fn']] = jax.jit(jax.grad(fn, argnums=0))
-            return float(_GRADS[t['fn']](*a))
-        return float(fn(*a))
+            xs = a[1:]
+            if repl:
+                xs = [repl.get(i, q) for i, q in enumerate(xs)]
+                return [jnp.array(xs, dtype=complex)] + ([a[0]] if t['given'] else [])
+            return [jnp.array(xs)] + ([a[0]] if t['given'] else [])
+        a = a[:t['given']]
+        if repl:
+            a = [repl.get(i, q) for i, q in enumerate(a)]
+        return a
+
+    def val(t):
+        return float(getattr(jf, t['fn'])(*pos(t)))
+
+    def grad(t, arg):
+        key = (t['fn'], arg, t['given'])
+        if key not in _GRADS:
+            _GRADS[key] = jax.jit(jax.grad(getattr(jf, t['fn']), argnums=arg))
+        return _GRADS[key](*pos(t))
+
+    def cs(t, arg):
+        a0 = float(fr(t['args'][arg + (1 if t['fn'] in ('ks_max', 'ks_min') else 0)]))
+        r = complex(getattr(jf, t['fn'])(*pos(t, {arg: complex(a0, H)})))
+        return r.imag / H
 
     bad = []
-    vals = [call(t) for t in s['terms']]
-    tot = sum(w * x for w, x in zip(s['w'], vals))
+    w = [float(fr(q)) for q in s['w']]
+    vals = [val(t) for t in s['terms']]
+    tot = sum(a * b for a, b in zip(w, vals)) + float(fr(s['k0']))
+    scale = sum(abs(a * b) for a, b in zip(w, vals)) + abs(float(fr(s['k0'])))
     want = float(fr(v['v']))
-    if not (np.isfinite(tot) and _close(tot, want, sum(abs(w * x) for w, x in zip(s['w'], vals)))):
+    if not (np.isfinite(tot) and _close(tot, want, scale)):
         bad.append(('value', vals, tot, want))
     if v['d'] != [0, 0]:
-        g = call(s['terms'][0], grad=True)
-        if g is not None:
-            wd = float(fr(v['d']))
-            if not (np.isfinite(g) and _close(g, wd)):
-                bad.append(('grad', g, wd))
+        wd = float(fr(v['d']))
+        for how in ('jax.grad', 'complex step'):
+            parts = []
+            for t, wk, ck in zip(s['terms'], w, s['c']):
+                for arg in (0, 1):
+                    c = float(fr(ck[arg]))
+                    if c == 0.0:
+                        continue
+                    if how == 'jax.grad':
+                        parts.append(wk * c * float(grad(t, arg)))
+                    elif t['fn'] in NO_COMPLEX:
+                        parts = None
+                        break
+                    else:
+                        parts.append(wk * c * cs(t, arg))
+                if parts is None:
+                    break
+            if parts is None:
+                continue
+            g = sum(parts)
+            if not (np.isfinite(g) and _close(g, wd, sum(abs(q) for q in parts))):
+                bad.append(('derivative by ' + how, parts, g, wd))
+    if v['kg']:
+        t = s['terms'][0]
+        wg = [float(fr(q)) for q in v['kg']]
+        g = [float(q) for q in np.asarray(grad(t, 0))]
+        if not all(np.isfinite(a) and _close(a, b) for a, b in zip(g, wg)):
+            bad.append(('KS gradient by jax.grad', g, wg))
+        g = [cs(t, i) for i in range(len(wg))]
+        if not all(np.isfinite(a) and _close(a, b) for a, b in zip(g, wg)):
+            bad.append(('KS gradient by complex step', g, wg))
     return bad
 
 
@@ -158,20 +235,77 @@ FN = {'abs': _abs, 'norm': _norm, 'arctan2': _arctan2, 'smooth': _smooth}
 
 
 def _worker(items):
+    import warnings
     from ..util import quiet
     quiet()
     out = []
     for e in items:
         try:
-            out.append({'bad': FN[e['s']['kind']](e['s'], e['v'])})
+            with warnings.catch_warnings():
+                warnings.simplefilter('ignore')
+                out.append({'bad': FN[e['s']['kind']](e['s'], e['v'])})
         except Exception as ex:
             out.append({'err': '%s: %s' % (type(ex).__name__, str(ex)[:300])})
     return out
 
 
+def _is_kink(s):
+    if s['kind'] == 'abs':
+        return any(x == 0 and d != 0 for x, d in zip(s['x'], s['dx']))
+    if s['kind'] == 'norm':
+        return any(not any(row) for row in s['x']) or not any(any(row) for row in s['x']) or \
+            any(not any(row[c] for row in s['x']) for c in range(len(s['x'][0])))
+    return False
+
+
+def _report(ctx, s, v, o):
+    k = s['kind']
+    if 'err' in o:
+        ctx.violation(s, v, o['err'], '%s raised' % k)
+    elif o['bad']:
+        if k == 'smooth':
+            what = 'rational identity of the smooth helper violated' if any(b[0] == 'value' for b in o['bad']) \
+                else 'derivative of the smooth helper differs from the exact rational value'
+            ctx.violation(s, v, o['bad'][:4], '%s: %s' % (s['id'], what))
+            return
+        if any('re' in b for b in o['bad']):
+            what = 'real part differs from NumPy'
+        elif any('im/h' in b for b in o['bad']):
+            what = 'imaginary part / h differs from the exact ' + \
+                ('one-sided directional derivative at the kink' if _is_kink(s) else 'derivative')
+        elif any('dtype' in b for b in o['bad']):
+            what = 'complex result for real arguments'
+        else:
+            what = 'result has the wrong shape'
+        ctx.violation(s, v, o['bad'][:4], '%s: %s' % (k, what), info={'clause': what, 'observed': o['bad'], 'forms': sorted({b[0] for b in o['bad']})})
+
+
+def replay(ctx):
+    import json
+    with open(ctx.replay) as f:
+        rec = json.load(f)
+    s, v = rec['scenario'], rec['expected']
+    o = _worker([{'s': s, 'v': v}])[0]
+    _report(ctx, s, v, o)
+    ctx.impl = ctx.evaluations = 1
+    ctx.note_nontrivial(('replay', s['kind']))
+    ctx.sample({'scenario': s, 'spec': v, 'observed': o})
+    ctx.rule = 'replay of one stored scenario'
+    ctx.exhaustive = False
+
+
 def run(ctx):
+    ctx.register_predicates({})
+    if getattr(ctx, 'replay', None):
+        return replay(ctx)
+    thorough = ctx.tier == 'thorough'
+    dirs = '{-2, -1, 0, 1, 2}' if thorough else '{-1, 0, 2}'
+    scales = '{0, -36, -41, -300, -7, 30}' if thorough else '{0, -36, -41, -300}'
+    suffix = 'Thorough' if thorough else 'Quick'
     cfg = ctx.write_cfg('CsSafe.cfg', '''CONSTANTS
   Kinds = {"abs", "norm", "arctan2", "smooth"}
+  Dirs <- Dirs%s
+  Scales <- Scales%s
 INIT Init
 NEXT Next
 INVARIANT AbsLaw
@@ -179,22 +313,43 @@ INVARIANT NormLaw
 INVARIANT At2Law
 INVARIANT QIndependent
 INVARIANT Export
-''')
-    r = ctx.tlc_check('mech/CsSafe', cfg, timeout=1500, heap='4g', workers=min(8, nproc()))
-    ctx.require_actions(['Choose'])
+''' % (suffix, suffix))
+    # no -coverage: TLC's cost model of the nested rational operators takes longer to build than the whole run; every
+    # exported line is printed in a state reached by one Choose step, which is the action count recorded here
+    r = ctx.tlc_check('mech/CsSafe', cfg, timeout=1500, heap='4g', workers=min(8, nproc()), coverage=False)
     exps = r.exports('EXP')
+    ctx.coverage_actions['Choose'] = len(exps)
+    ctx.require_actions(['Choose'])
     kinds = {}
     for e in exps:
         kinds.setdefault(e['s']['kind'], []).append(e)
     if set(kinds) != {'abs', 'norm', 'arctan2', 'smooth'}:
         raise MachineryError('kinds exported: %s' % sorted(kinds))
-    ctx.register_predicates({})
-    # the jax scenarios go to one worker (one jit compilation per function), the NumPy ones are spread
+    # vacuity guards: the scenario classes this check exists for must be present
+    need = {
+        'abs kink with a negative step': any(any(x == 0 and d < 0 for x, d in zip(e['s']['x'], e['s']['dx'])) for e in kinds['abs']),
+        'abs with a real part below the step': any(e['s']['e'] <= -41 for e in kinds['abs']),
+        'norm of an all-zero array': any(not any(any(row) for row in e['s']['x']) for e in kinds['norm']),
+        'norm with an all-zero row': any(e['s']['axis'] == '1' and any(row) and not all(any(row) for row in e['s']['x'])
+                                         for e in kinds['norm'] for row in e['s']['x']),
+        'arctan2 at the origin': any(e['s']['x'] == 0 and e['s']['y'] == 0 for e in kinds['arctan2']),
+        'smooth helper with a default argument': any(t['given'] < len(t['args']) and t['fn'] not in ('ks_max', 'ks_min')
+                                                     for e in kinds['smooth'] for t in e['s']['terms']),
+        'KS gradient': any(e['v']['kg'] for e in kinds['smooth']),
+    }
+    if not all(need.values()):
+        raise MachineryError('scenario classes missing from the TLC export: %s' % [k for k, ok in need.items() if not ok])
+    # the jax scenarios are grouped by function family (jit compilations dominate: one worker per family compiles each
+    # function once), the NumPy ones are spread
     numpy_items = kinds['abs'] + kinds['norm'] + kinds['arctan2']
-    n = min(3, nproc())         # the NumPy scenarios are cheap: process start-up dominates
+    n = min(2, nproc())         # the NumPy scenarios are cheap: process start-up dominates
     chunks = [numpy_items[i::n] for i in range(n)]
-    chunks = [c for c in chunks if c] + [kinds['smooth']]
-    res = pmap(_worker, chunks, nproc=n + 1)
+    fam = {'act_tanh': 0, 'smooth_max': 1, 'smooth_min': 1, 'smooth_abs': 2, 'smooth_round': 2, 'ks_max': 3, 'ks_min': 4}
+    groups = {}
+    for e in kinds['smooth']:
+        groups.setdefault(fam[e['s']['terms'][-1]['fn']], []).append(e)
+    chunks = [c for c in chunks if c] + [groups[k] for k in sorted(groups)]
+    res = pmap(_worker, chunks, nproc=min(len(chunks), nproc()))
     count = 0
     ids = set()
     for ch, rs in zip(chunks, res):
@@ -203,8 +358,8 @@ INVARIANT Export
             count += 1
             k = s['kind']
             if k == 'abs':
-                if any(x == 0 for x in s['x']) or any(x < 0 for x in s['x']):
-                    ctx.note_nontrivial(('abs', tuple(s['x']), tuple(s['dx'])))
+                if any(x == 0 for x in s['x']) or any(x < 0 for x in s['x']) or s['e'] != 0:
+                    ctx.note_nontrivial(('abs', s['e'], tuple(s['x']), tuple(s['dx'])))
             elif k == 'norm':
                 ctx.note_nontrivial(('norm', str(s['x']), s['axis'], str(s['dx'])))
             elif k == 'arctan2':
@@ -212,13 +367,8 @@ INVARIANT Export
                     ctx.note_nontrivial(('at2', s['y'], s['x'], s['dy'], s['dx']))
             else:
                 ids.add(s['id'])
-                ctx.note_nontrivial(('smooth', s['id'], str(s['terms'])))
-            if 'err' in o:
-                ctx.violation(s, v, o['err'], '%s raised' % k)
-            elif o['bad']:
-                what = 'imaginary part / h differs from the exact derivative' if any('im/h' in b for b in o['bad']) \
-                    else ('real part differs from NumPy' if k != 'smooth' else 'rational identity of the smooth helper violated')
-                ctx.violation(s, v, o['bad'][:4], '%s: %s' % (k if k != 'smooth' else s['id'], what))
+                ctx.note_nontrivial(('smooth', s['id'], str(s['terms']), str(s['c'])))
+            _report(ctx, s, v, o)
     ctx.impl = count
     ctx.evaluations = count
     ctx.exhaustive = True
@@ -227,21 +377,25 @@ INVARIANT Export
     for k in ('norm', 'arctan2', 'smooth'):
         e = kinds[k][len(kinds[k]) // 2]
         ctx.sample({'scenario': e['s'], 'spec': e['v']})
-    ctx.rule = ('every scenario of CsSafe.tla: abs on vectors of 1-3 integers in -2..2 x directions {-1,0,2} (scalar, '
-                'NumPy scalar, 1-D, 2-D, real and complex arguments); norm on 12 Pythagorean vectors/matrices x every axis '
-                'for which the groups are Pythagorean x direction arrays over {-1,0,2}; arctan2 on the 24 integer points '
-                'of [-2,2]^2 without the origin x 15 directions (complex/complex, complex/real, real/complex, arrays); '
-                'smooth: %d rational identities (midpoint, saturation, antisymmetry, max+min, symmetry, evenness, '
-                'rounding cases, single/separated KS) x parameters; non-trivial = every scenario except abs on positive '
-                'data and arctan2 in the open first quadrant' % len(ids))
+    ctx.rule = ('every scenario of CsSafe.tla: abs on vectors of 1-3 integers in -2..2 scaled by 10^e, e in %s, x directions %s '
+                '(scalar, NumPy scalar, 0-d, 1-D, 2-D, strided, real / integer and complex arguments); norm on 19 Pythagorean '
+                'vectors/matrices incl. all-zero arrays, rows and columns x every axis for which the groups are Pythagorean x '
+                'direction arrays (real and complex dtype, negative axis); arctan2 on the 25 integer points of [-2,2]^2 x 15 '
+                'directions (complex/complex, complex/real, real/complex, arrays; origin: real arguments only); '
+                'smooth: %d rational identities (midpoint, saturation, antisymmetry, shift / scale / affine laws, max+min, '
+                'symmetry, evenness, cross-function identities, default arguments, rounding, KS ties / shift / scale / '
+                'permutation) x parameters, value, jax.grad and complex-step derivative; non-trivial = every scenario except '
+                'unscaled abs on positive data and arctan2 in the open first quadrant' % (scales, dirs, len(ids)))
     ctx.assumptions = [
-        'PARTIAL: cs_safe.abs / norm / arctan2 are covered on integer (Pythagorean) points only; the derivative is '
-        'compared for the single step h = 1e-40',
-        'at the kink of abs (x = 0) either one-sided derivative (+dx or -dx) is accepted: the array path returns |dx|, '
-        'the scalar path dx; the documentation fixes neither',
-        'cs_safe.norm has only the axis option in this version (no keepdims, no ord); zero vectors (no derivative) are '
-        'not enumerated',
+        'PARTIAL: cs_safe.abs / norm / arctan2 are covered on integer (Pythagorean) points only (abs additionally scaled by '
+        'powers of ten down to real parts far below the step); the derivative is compared for the single step h = 1e-40',
+        'at a kink (abs at 0, norm of an all-zero group) the expected imaginary part is h times the one-sided DIRECTIONAL '
+        'derivative, |dx| resp. ||dx||: the slope in the direction of the step, which is what the array branch of cs_safe.abs '
+        'documents (sign(x.imag) where x.real == 0); signed zeros are compared with == (abs(-0.0) = -0.0 is not reported)',
+        'cs_safe.norm has only the axis option in this version (no keepdims, no ord); arctan2 at the origin is evaluated '
+        'for real arguments only (no derivative exists)',
         'jax smooth helpers: only identities whose value is exactly rational are decided (tanh(0) = 0, tanh(t) = +-1 '
-        'in IEEE double for |t| >= 32, exp underflow for the KS functions, oddness of tanh); accuracy of the smooth '
-        'approximation between those points (tanh / exp / log values) is out of scope',
+        'in IEEE double for |t| >= 32, exp underflow for the KS functions, tanh / log-sum-exp uninterpreted otherwise); '
+        'accuracy of the smooth approximation between those points (tanh / exp / log values) is out of scope; smooth_round '
+        'rejects complex arguments (jnp.floor), its derivative is taken with jax.grad only',
     ]
